@@ -809,7 +809,15 @@ func (g *verifGen) pickMp(biasServed bool) int {
 
 func (g *verifGen) initLine() string {
 	h := g.h
-	g.gen++
+	// 40% of the re-Inits send the SAME config (byte-identical request) as the previous Init: the
+	// snapshotter reconnecting with an unchanged configuration must still get a fresh filesystem
+	// and a full restore (the config number is an explicit op parameter; fs identity stays the
+	// construction index).
+	if g.gen == 0 || g.rnd.Intn(100) >= 40 {
+		g.gen++
+	} else {
+		h.out.Count("init-same-config")
+	}
 	stage := []string{"ok", "parse", "cfgfunc", "construct"}[g.rnd.Pick(76, 6, 9, 9)]
 	fails := "-"
 	if g.rnd.Intn(100) < 35 {
@@ -930,6 +938,15 @@ func verifScenarios(osIdx int, osBit string, plain []int) [][]string {
 			"init 3 construct -", "mount " + p(2) + " 2 ok", "init 4 parse -", "check " + p(1) + " 1 ok",
 			"unmount " + p(0) + " ok 0", "restart", "init 5 ok " + p(2), "init 6 cfgfunc -",
 			"mount " + p(2) + " 2 ok", "init 7 ok -"},
+		// the SAME config twice: after a restart the first Init fails restoring one mountpoint, the
+		// second Init (byte-identical request) must build a new filesystem, finish the restore and only
+		// then report ok; and a same-config re-Init with live mounts keeps owners, new mounts use the new fs
+		{"init 1 ok -", "mount " + p(0) + " 1 ok", "mount " + p(1) + " 2 ok", "mount " + p(2) + " 0 ok",
+			"restart", "init 2 ok " + p(1), "check " + p(1) + " 2 ok", "init 2 ok -",
+			"check " + p(0) + " 1 ok", "check " + p(1) + " 2 ok", "check " + p(2) + " 0 ok",
+			"init 2 ok -", "mount " + p(3) + " 1 ok", "check " + p(3) + " 1 ok", "unmount " + p(1) + " ok 0",
+			"init 2 cfgfunc -", "init 2 ok -", "mount " + p(1) + " 2 ok",
+			"restart", "init 2 ok " + p(0) + "," + p(3), "init 2 ok " + p(3), "init 2 ok -", "check " + p(3) + " 1 ok"},
 		// Close: requests are rejected, the store file is gone, a restart begins empty
 		{"init 1 ok -", "mount " + p(0) + " 1 ok", "close", "mount " + p(1) + " 1 ok",
 			"check " + p(0) + " 1 ok", "unmount " + p(0) + " ok 0", "close", "restart",
